@@ -174,6 +174,11 @@ func Populate(c *abci.Chain, f Features, r *hx.Rng) *World {
 		}
 		w.tx("assign role", 0, govtypes.NewMsgAssignRole(A(0), A(1+i%3), uint32(3+i)))
 	}
+	if f.NRoles >= 2 && f.RoleBlacklist {
+		// the witness of C12_roles_roundtrip_refuted on the real chain: a1 holds role0 (blacklists 11) and
+		// role1 (whitelists 11): denied before the export, allowed after the re-import
+		w.tx("assign second role to a1", 0, govtypes.NewMsgAssignRole(A(0), A(1), 4))
+	}
 	if f.ActorPerms {
 		w.tx("whitelist perm", 0, govtypes.NewMsgWhitelistPermissions(A(0), A(2), uint32(govtypes.PermClaimCouncilor)))
 		w.tx("blacklist perm", 0, govtypes.NewMsgBlacklistPermissions(A(0), A(2), uint32(govtypes.PermClaimValidator)))
